@@ -460,3 +460,95 @@ func propNested(t *rapid.T) {
 }
 
 func TestPropNested(t *testing.T) { rapid.Check(t, propNested) }
+
+// Plain has no validate tags at all: its rule lives in the application's own validator.
+type Plain struct {
+	XMLName xml.Name `xml:"plain" json:"-" form:"-" query:"-"`
+	N       int      `json:"n" xml:"n" form:"n" query:"n"`
+	IDs     []int    `json:"ids" xml:"ids" form:"ids" query:"ids"`
+}
+
+type evenOnly struct{ calls int }
+
+func (v *evenOnly) Validate(obj any) error {
+	v.calls++
+	if p, ok := obj.(*Plain); ok && p.N%2 != 0 {
+		return errors.New("n must be even")
+	}
+	return nil
+}
+
+// propCustomValidator: "whenever a validator is enabled" includes a validator the application installed itself
+// (binding.Validator), for structs without any tags; and long slices (more than 128 values) round-trip like
+// short ones.
+func propCustomValidator(t *rapid.T) {
+	ev.Case()
+	v := &evenOnly{}
+	binding.Validator = v
+	defer binding.ResetValidator()
+	nids := rapid.SampledFrom([]int{0, 1, 3, 129, 300, 900}).Draw(t, "nids") // (net/http refuses multipart forms of more than 1000 parts)
+	p := Plain{N: rapid.IntRange(0, 9).Draw(t, "n")}
+	for i := 0; i < nids; i++ {
+		p.IDs = append(p.IDs, i*7%1000)
+	}
+	format := rapid.SampledFrom([]string{"json", "xml", "form", "query", "multipart"}).Draw(t, "format")
+	vals := url.Values{"n": {strconv.Itoa(p.N)}}
+	for _, id := range p.IDs {
+		vals.Add("ids", strconv.Itoa(id))
+	}
+	var req *http.Request
+	switch format {
+	case "json":
+		b, _ := json.Marshal(p)
+		req = httptest.NewRequest("POST", "/x", bytes.NewReader(b))
+		req.Header.Set("Content-Type", "application/json")
+	case "xml":
+		b, _ := xml.Marshal(p)
+		req = httptest.NewRequest("POST", "/x", bytes.NewReader(b))
+		req.Header.Set("Content-Type", "application/xml")
+	case "form":
+		req = httptest.NewRequest("PUT", "/x", strings.NewReader(vals.Encode()))
+		req.Header.Set("Content-Type", "application/x-www-form-urlencoded")
+	case "multipart":
+		var buf bytes.Buffer
+		mw := multipart.NewWriter(&buf)
+		for k, vs := range vals {
+			for _, s := range vs {
+				_ = mw.WriteField(k, s)
+			}
+		}
+		_ = mw.Close()
+		req = httptest.NewRequest("POST", "/x", &buf)
+		req.Header.Set("Content-Type", mw.FormDataContentType())
+	default:
+		req = httptest.NewRequest("GET", "/x?"+vals.Encode(), nil)
+	}
+	var got Plain
+	err := binding.Auto(req, &got)
+	ev.Eval()
+	ctx := fmt.Sprintf("%s n=%d len(ids)=%d: err=%v bound n=%d len(ids)=%d validator calls=%d", format, p.N, len(p.IDs), err, got.N, len(got.IDs), v.calls)
+	if p.N%2 != 0 {
+		if err == nil {
+			t.Fatalf("the installed validator rejects the value but binding succeeded: %s", ctx)
+		}
+		ev.Class("custom-validator-rejects")
+		return
+	}
+	if err != nil {
+		t.Fatalf("unexpected error: %s", ctx)
+	}
+	if got.N != p.N || len(got.IDs) != len(p.IDs) {
+		t.Fatalf("round trip: %s", ctx)
+	}
+	for i := range p.IDs {
+		if got.IDs[i] != p.IDs[i] {
+			t.Fatalf("round trip: ids[%d]=%d, want %d: %s", i, got.IDs[i], p.IDs[i], ctx)
+		}
+	}
+	if nids > 128 {
+		ev.Class("slice-of-more-than-128-values")
+		ev.NonTrivial(ctx, func() string { return ctx })
+	}
+}
+
+func TestPropCustomValidator(t *testing.T) { rapid.Check(t, propCustomValidator) }
